@@ -29,6 +29,12 @@ def unfb(s):
     return struct.unpack("<d", struct.pack("<Q", int(s)))[0]
 
 
+def _frac(x):
+    from fractions import Fraction
+
+    return Fraction(float(x))
+
+
 def mask_str(m):
     return "".join("1" if b else "0" for b in m)
 
@@ -109,10 +115,16 @@ class C13(Spec):
             # C05 exactness of the composed panner plugged in: no panner hypothesis left on the ten regenerated layouts
             "norm_tables_match", "pspHandle_exact_at_norm", "polar_lock_one_speaker_layouts",
             "polar_lock_one_speaker_layouts_tables",
+            # the REAL pan: PolarExtentHandler.handle(., 0, 0, 0) (GainCalc.polarPointPan) around the C05 panner
+            "tables_norm_near_unit", "c01_tables_match", "inPointClass_at_norm", "renderPolar_scale",
+            "polar_lock_one_speaker_layouts_extent",
             "downmixForExcluded_cast", "alloExcluded_cast", "getExcluded_spec", "zoneMatch_cart_spec", "whileLoop_spec",
             "insideAngleRange_spec", "zoneMatch_polar_spec",
             "screen_position_identity",
         )
+    ) + tuple(
+        "Earverif.GainCalc." + t
+        for t in ("extentMod_zero_near", "inPointClass_of_near", "polarPointPan_at_unit")
     )
     trusted_base = (
         "models Earverif/Model/Zone.lean and ChannelLock.lean are hand transliterations of "
@@ -122,7 +134,9 @@ class C13(Spec):
         "the panners (point source, polar extent, allo_extent) are parameters of the model: arbitrary gain vectors of "
         "the right length; in renderPolarLock the panner is a function parameter `pan` (theorem hypothesis: exact at "
         "the locked loudspeaker, i.e. C05 exactness at a vertex), closed in the driver with the (position, gains) "
-        "pairs captured from inside the real render call; the polar/Cartesian conversions of scale_position are "
+        "pairs captured from inside the real render call (op rpl) or with the concrete C01 model GainCalc.polarPointPan "
+        "over the regenerated Gen/C01 + Gen/C05 tables, nothing captured (op rple; theorem "
+        "polar_lock_one_speaker_layouts_extent); the polar/Cartesian conversions of scale_position are "
         "parameters of scalePosition (C19)",
         "theorems over R use the tolerance 1e-5 / 1e-6 as real numbers; the Float/Rat instances use the doubles' exact "
         "values (boundary behaviour within 1 ulp of a threshold is covered by the correspondence, not by the R theorems)",
@@ -164,7 +178,10 @@ class C13(Spec):
         "loudspeakers, midpoints/exact ties, maxDistance at the boundary +- ulps); screens (polar/Cartesian) x az/el "
         "incl. the table points; whole polar renders: extent / divergence / zones / lock objects with the per-position gains "
         "and divergence weights captured inside the real render (op rp) and point objects with lock and zones through "
-        "renderPolarLock (op rpl). search: polar lock objects now also carry zone lists (45%; half of them a range "
+        "renderPolarLock (op rpl); a locked polar point object AT every loudspeaker of every layout (lock without "
+        "maxDistance) and near it (quick 1, thorough 6 per loudspeaker: perturbed direction/distance, maxDistance, zones) "
+        "through renderPolarLock with polarPointPan, nothing captured (op rple, 1e-12), plus the property's predicate on "
+        "those real gains (tag polar-lock-extent-wrapper). search: polar lock objects now also carry zone lists (45%; half of them a range "
         "around the nearest loudspeaker so that the locked loudspeaker is excluded), the deterministic witness of "
         "polar_lock_zone_two_speakers_witness is rendered on every run; rendered gains on all ten layouts, single blocks and sequences of 2..6 blocks "
         "on one shared GainCalc instance (equal zone lists recurring across polar/Cartesian blocks, alternating lock, "
@@ -251,6 +268,19 @@ class C13(Spec):
                            "C05's extractor raised %r: the C05 tables/certificates the section-12 theorems depend on were not "
                            "regenerated from the code as it is now" % (e,))
 
+        # section 13 (`c01_tables_match`, `polar_lock_one_speaker_layouts_extent`) and the driver op `rple` read
+        # Gen/C01_Tables.lean (LayoutTable.env): regenerate it with C01's own table writer (imported, not edited)
+        try:
+            import os
+            from . import c01
+
+            write_if_changed(os.path.join(GEN, "C01_Tables.lean"), c01.table_text())
+            ctx.obligation("extract:C01-tables", True, "Gen/C01_Tables.lean regenerated by C01's table_text()")
+        except Exception as e:
+            ctx.obligation("extract:C01-tables", False,
+                           "C01's table writer raised %r: Gen/C01_Tables.lean (environment of polarPointPan in section 13 "
+                           "and in op rple) was not regenerated from the code as it is now" % (e,))
+
     # ---------------------------------------------------------------- correspondence
 
     def correspond(self, ctx):
@@ -282,6 +312,7 @@ class C13(Spec):
             self._corr_speaker_tree(ctx, ask, name, t, 600 if quick else (1 << 13 if n <= 13 else 8000))
             self._corr_render_cart(ctx, ask, name, t, allocentric, 60 if quick else 800)
             self._corr_render_polar(ctx, ask, name, t, 24 if quick else 400)
+            self._corr_render_polar_extent(ctx, ask, name, t, 1 if quick else 6)
         self._corr_downmix_synthetic(ctx, ask, 300 if quick else 4000)
         self._corr_allo_synthetic(ctx, ask, allocentric, 300 if quick else 4000)
         self._corr_priority(ctx, ask, EgoChannelLockHandler, 40 if quick else 400)
@@ -841,6 +872,123 @@ class C13(Spec):
 
                 ask(line, check2)
 
+    def _corr_render_polar_extent(self, ctx, ask, name, t, extra):
+        """`rple`: the composed `renderPolarLock` with `pan := GainCalc.polarPointPan (T.env fuel) l` (NOTHING captured:
+        PolarExtentHandler.handle(., 0, 0, 0) around the C05 point-source panner walked over its regenerated table) against
+        the real `GainCalc.render` for a locked polar point object AT every loudspeaker of the layout (lock without
+        maxDistance, no zones: the subject of `polar_lock_one_speaker_layouts_extent`) and `extra` more per loudspeaker
+        NEAR it (perturbed direction / distance, random maxDistance, zone lists).  1e-12 per gain.  The direct predicate
+        of the property at the loudspeaker itself is evaluated on the real gains too: the locked loudspeaker carries
+        `gain` (1e-12) and every other gain is <= 1e-9 (the point-source panner's ~1e-17 residues), and what the real
+        `extent_mod(0, |norm_positions[k]|)` returns is recorded (0.0 exactly on all 96 loudspeakers: in binary64 the
+        wrapper is the identity there, whereas over R the theorem carries the factor s)."""
+        from ear.core.geom import cart as to_cart
+
+        rng = ctx.rng
+        gc, lay, _t = S._gain_calc(name)
+        n = t["n"]
+        gtok = groups_tokens(t["groups"])
+        rows = " ".join(" ".join(fb(v) for v in t["spk"][i]) + " " + " ".join(fb(v) for v in t["norm"][i]) + " %d" % t["prio"][i]
+                        for i in range(n))
+        P = np.array(t["norm"], dtype=float)
+        for k in range(n):
+            for j in range(1 + extra):
+                at = j == 0
+                zones = []
+                if at:
+                    pos = dict(azimuth=float(t["azel"][k][0]), elevation=float(t["azel"][k][1]), distance=1.0)
+                    lock = None
+                    gain, diffuse = rng.choice([1.0, rng.uniform(0.1, 2.0)]), rng.choice([0.0, rng.random()])
+                else:
+                    az = (float(t["azel"][k][0]) + rng.choice([0.0, rng.uniform(-8, 8)]) + 180.0) % 360.0 - 180.0
+                    el = min(90.0, max(-90.0, float(t["azel"][k][1]) + rng.choice([0.0, rng.uniform(-8, 8)])))
+                    pos = dict(azimuth=az, elevation=el, distance=rng.choice([1.0, rng.uniform(0.7, 1.6)]))
+                    gain, diffuse = rng.uniform(0.1, 2.0), rng.choice([0.0, rng.random()])
+                    if rng.random() < 0.4:
+                        zones, _k = S.gen_zone_list(rng, t)
+                p = to_cart(pos["azimuth"], pos["elevation"], pos["distance"])
+                if not at:
+                    lock = rng.choice([None, None, rng.uniform(0.05, 1.0)])
+                o = dict(layout=name, cartesian=False, position=pos, zones=zones, gain=gain, diffuse=diffuse, lock=lock)
+                calls = []
+                real_handle = gc.polar_extent_panner.handle
+
+                def rec_handle(position, width, height, depth, _h=real_handle, calls=calls):
+                    out = _h(position, width, height, depth)
+                    calls.append([float(v) for v in position])
+                    return out
+
+                gc.polar_extent_panner.handle = rec_handle
+                try:
+                    try:
+                        d, f, _ok = S._render(gc, lay, o)
+                        real = ([float(x) for x in d], [float(x) for x in f])
+                    except ValueError:
+                        real = "none"
+                finally:
+                    del gc.polar_extent_panner.handle
+                zmask = [bool(b) for b in gc.zone_exclusion_handler.get_excluded(S.zones_to_objects(zones))]
+                ztok = []
+                for z in zones:
+                    if z["t"] == "c":
+                        ztok.append("c " + " ".join(fb(z[key]) for key in ("minX", "maxX", "minY", "maxY", "minZ", "maxZ")))
+                    else:
+                        ztok.append("p " + " ".join(fb(z[key]) for key in ("minAzimuth", "maxAzimuth", "minElevation", "maxElevation")))
+                ltok = "none" if lock is None else fb(lock)
+                line = "rple %s %d %d %s %s %d %s %s %s %s %s %s %s" % (
+                    name, FUEL, n, rows, gtok, len(zones), " ".join(ztok), fb(p[0]), fb(p[1]), fb(p[2]), ltok, fb(gain),
+                    fb(diffuse))
+                line = " ".join(line.split())
+                if at and real != "none":
+                    # the property itself on the real gains, and what the wrapper saw
+                    dist = float(np.linalg.norm(P[k]))
+                    em = float(gc.polar_extent_panner.extent_mod(0.0, dist)) if hasattr(gc.polar_extent_panner, "extent_mod") else None
+                    ctx.count("polar extent wrapper at a loudspeaker: float |norm_positions[k]| %s 1.0, extent_mod(0, .) %s 0.0"
+                              % ("==" if dist == 1.0 else "!=", "==" if em == 0.0 else "!="))
+                    sq = sum(_frac(v) ** 2 for v in P[k])
+                    ctx.count("polar extent wrapper at a loudspeaker: exact |norm_positions[k]|^2 %s 1"
+                              % ("<" if sq < 1 else (">" if sq > 1 else "==")))
+                    want_d, want_f = gain * math.sqrt(1.0 - diffuse), gain * math.sqrt(diffuse)
+                    bad = [i for i in range(n)
+                           if abs(real[0][i] - (want_d if i == k else 0.0)) > (1e-12 if i == k else 1e-9)
+                           or abs(real[1][i] - (want_f if i == k else 0.0)) > (1e-12 if i == k else 1e-9)]
+                    if bad or calls[-1:] != [[float(v) for v in P[k]]]:
+                        ctx.hit("polar channelLock at a loudspeaker position is not rendered by exactly that loudspeaker "
+                                "(through PolarExtentHandler.handle with zero extent)", o,
+                                {"loudspeaker": k, "direct": real[0], "diffuse": real[1], "pan called at": calls[-1:]},
+                                tags=("polar-lock-extent-wrapper",))
+
+                def check(ans, real=real, o=o, zmask=zmask, calls=calls, at=at, k=k):
+                    ctx.case(("rple", repr(o)), True,
+                             sample={"fn": "GainCalc.render (polar, lock) vs renderPolarLock with polarPointPan (nothing captured)",
+                                     "object": o, "loudspeaker": k})
+                    if ans == "none" or real == "none":
+                        # the model answers none outside the point-only class (ammount_spread > 1e-10: distance < 1 when
+                        # the lock does not engage): not a statement about the code
+                        if ans == "none" and real != "none" and not at:
+                            ctx.count("render polar+lock, polarPointPan: outside the point-only class (unlocked, distance < 1)")
+                            return
+                        ok, res = ans == real, "error"
+                    else:
+                        w = ans.split()
+                        res = {"U": "unchanged", "L": "locked", "E": "error"}[w[1][0]]
+                        dd = [unfb(x) for x in w[2:2 + n]]
+                        ff = [unfb(x) for x in w[2 + n:2 + 2 * n]]
+                        ok = w[0] == mask_str(zmask) and len(dd) == n and len(ff) == n and all(
+                            abs(a - b) <= 1e-12 for a, b in zip(dd + ff, real[0] + real[1]))
+                        if ok and w[1][0] == "L":
+                            i = int(w[1][1:])
+                            ok = calls[-1:] == [[float(v) for v in t["norm"][i]]] and (not at or i == k)
+                        if ok and at:
+                            ok = w[1][0] == "L"
+                    ctx.count("render polar+lock, polarPointPan (%s) -> %s" % ("at the loudspeaker" if at else "near", res))
+                    if ok:
+                        ctx.validated()
+                    else:
+                        ctx.disagree("GainCalc.render (polar, lock) vs renderPolarLock with polarPointPan", o, ans[:400], real)
+
+                ask(line, check)
+
     def _corr_compensate(self, ctx, ask, count):
         from ear.core.screen_common import compensate_position
         from ear.core import bs2051
@@ -1002,17 +1150,27 @@ REGISTRY = dict(
     "norm_tables_match (decide +kernel) says that layout.norm_positions[k] of the C13 table is the position of channel k "
     "in the C05 region table (pspHandle_exact_at_norm); polar_lock_one_speaker_layouts_tables states it with the layout's own "
     "regenerated priority list and groups (L.prio, L.groups: no hypothesis about prio/groups left, prio.length = n stated, "
-    "0 <= diffuse <= 1 assumed). SUBSTITUTION in all polar_lock_one_speaker_layouts* theorems: the `pan` argument of "
-    "renderPolarLock is instantiated with the BARE point-source panner GainCalc.pspHandle, whereas the real pan is "
-    "extent_pan(position, 0, 0, 0) = PolarExtentHandler.handle AROUND that panner (model: GainCalc.polarPointPan, "
-    "calc_pv_spread with zero extent); that the wrapper returns the panner's e_k unchanged at a loudspeaker position is NOT "
-    "proved here (C01 proves polarPointPan's contract; the correspondence runs the whole real render). A failed regeneration "
+    "0 <= diffuse <= 1 assumed). These three instantiate `pan` with the BARE point-source panner GainCalc.pspHandle; "
+    "polar_lock_one_speaker_layouts_extent states the same for the REAL pan, extent_pan(position, 0, 0, 0) = "
+    "PolarExtentHandler.handle around that panner (GainCalc.polarPointPan (T.env fuel) l, T = the C01 table of the same "
+    "layout: c01_tables_match): direct/diffuse gains = e_k * (s * gain) * split, exact zeros on every other loudspeaker, "
+    "NearestByRule, with s = sqrt(1 - ammount_spread) of norm_positions[k], 0 <= s <= 1, 1 - 1e-10 <= s^2, and s = 1 "
+    "whenever the exact length of norm_positions[k] is >= 1. s is needed because the binary64 unit vectors are not of unit "
+    "length exactly (27 of the 96 loudspeakers have exact squared length 1 - 2e-17 .. 1 - 5.3e-17): over R extent_mod(0, d) "
+    "> 0 for d < 1, calc_pv_spread returns sqrt(1 - ammount_spread) * e_k. Proof: extentMod_zero_near / inPointClass_of_near "
+    "(distance >= 1 - 1e-12 => 0 <= extent_mod(0, d) <= 1e-9 => ammount_spread <= 1e-10, by Jordan's inequality on arg(d + 0.2i) "
+    "- arg(1 + 0.2i)), table obligation tables_norm_near_unit (decide +kernel: every |norm_positions[k]|^2 >= 1 - 1e-12), "
+    "inPointClass_at_norm, polarPointPan_at_unit, renderPolar_scale (the polar tail is homogeneous: panner answer scaled by "
+    "s >= 0 = block gain scaled by s). In binary64 the real code computes |norm_positions[k]| == 1.0 and extent_mod == 0.0 "
+    "exactly on all 96 loudspeakers (counted on every run), i.e. s = 1; the composed model with polarPointPan (nothing "
+    "captured) is run against the real render at and near every loudspeaker of the ten layouts (op rple, 1e-12). A failed regeneration "
     "of the C05 tables/certificates these theorems depend on is a broken obligation (extract:C05-tables). screenRef: screen_identity (equal edges => scale_az_el = id), "
     "screen_position_identity (whole polar step scale_position = id given the C19 round trip of the conversions, "
     "which are parameters); compensate_position modelled (identity without U+045 / at elevation 0 and 90). Float "
     "rounding at thresholds, the polar panner's region order, downmix wrappers and the whole GainCalc.render are covered "
     "by correspondence (all 2^n masks for n <= 12, boundary zones, ties, whole Cartesian renders against "
-    "renderCartLock, whole polar renders against renderPolar / renderPolarLock) and by the search on rendered gains "
+    "renderCartLock, whole polar renders against renderPolar / renderPolarLock with captured pans and - for locked point "
+    "objects at/near every loudspeaker - with the concrete polarPointPan) and by the search on rendered gains "
     "(polar lock + zones judged with an independent downmix-row classifier).",
     note="Trusted: Lean kernel; hand transliteration + correspondence; polar/extent panners as parameters (closed with "
     "captured values in the driver); IEEE zero laws sampled; C05 model and tables imported unchanged; R theorems use "
